@@ -58,15 +58,28 @@ func (g *Gen) scriptMode(o *Obligation, extra []string, getValues []string, abst
 		body.WriteString("\n")
 	}
 	body.WriteString(goal)
-	if !abstract && len(g.sfAxioms) > 0 {
-		// definitional axioms of quantified spec functions, only those reachable from the query
+	if len(g.sfAxioms) > 0 {
+		// conditional axioms (definitions of quantified spec functions, ByteSeq theory):
+		// only those reachable from the query
 		sofar := body.String()
 		used := make([]bool, len(g.sfAxioms))
 		var ax strings.Builder
 		for changed := true; changed; {
 			changed = false
 			for i, sa := range g.sfAxioms {
-				if !used[i] && (strings.Contains(sofar, "("+sa.name+" ") || strings.Contains(ax.String(), "("+sa.name+" ")) {
+				if used[i] || (abstract && !sa.light) {
+					continue
+				}
+				hit := false
+				if sa.name != "" && (strings.Contains(sofar, "("+sa.name+" ") || strings.Contains(ax.String(), "("+sa.name+" ")) {
+					hit = true
+				}
+				for _, tr := range sa.trigs {
+					if strings.Contains(sofar, tr) || strings.Contains(ax.String(), tr) {
+						hit = true
+					}
+				}
+				if hit {
 					used[i] = true
 					changed = true
 					ax.WriteString(sa.text)
@@ -474,7 +487,7 @@ func solveOne(g *Gen, o *Obligation, dir, tag string, timeoutS int) *Result {
 	}
 	// stage 2: race the full query (z3-new, cvc5) against the light one (z3-new) for the
 	// whole limit; unsat from any of them proves, sat is accepted from the full query only
-	if status == "noanswer" {
+	if status == "noanswer" && !o.Cover {
 		type ans struct {
 			status, solver, out string
 			ms                  int64
@@ -532,6 +545,18 @@ func solveOne(g *Gen, o *Obligation, dir, tag string, timeoutS int) *Result {
 			switch ss {
 			case "sat":
 				r.Status, r.Solver, r.Raw, r.SmallScope = "cover-ok", sv+"(qf-relaxed)", so, true
+				// the quantified facts get a bounded second chance to show a contradiction
+				extra := timeoutS / 3
+				if extra > 8 {
+					extra = 8
+				}
+				fs, fsv, fso, fms := runSolvers(script, dir, tag, extra, []string{"z3-new", "cvc5"})
+				r.Ms += fms
+				if fs == "unsat" {
+					r.Status, r.Solver, r.Raw, r.SmallScope = "cover-fail", fsv, fso, false
+				} else if fs == "sat" {
+					r.Solver, r.SmallScope = fsv, false
+				}
 			case "unsat":
 				r.Status, r.Solver, r.Raw = "cover-fail", sv, so
 			default:
